@@ -94,6 +94,7 @@ ASNS = [0, 65001, 65002, 4200000000]
 
 class Prop:
     pid = 'C13'
+    ops_field = 'evs'
     props_file = 'Props/C13.v'
     required_theorems = []
     correspondence_name = ('Model/RtrClient.v run_case (RtrCodec::decode + Framed loop + serve_inner + TableManager::rpki_*) vs '
